@@ -66,10 +66,19 @@ pub fn tx_version(v: u8) -> Option<TxVersion> {
 }
 
 fn padding(p: u8) -> BundlePadding {
-    if p == 0 {
-        BundlePadding::DEFAULT
-    } else {
-        BundlePadding::UNPADDED
+    let (bundle_required, pad_to_minimum) = super::world::pad_fields(p);
+    let bp = BundlePadding { bundle_required, pad_to_minimum };
+    // the two named constants are used where the alphabet coincides with them
+    match p {
+        0 => {
+            assert_eq!(bp, BundlePadding::DEFAULT, "harness: padding alphabet");
+            BundlePadding::DEFAULT
+        }
+        1 => {
+            assert_eq!(bp, BundlePadding::UNPADDED, "harness: padding alphabet");
+            BundlePadding::UNPADDED
+        }
+        _ => bp,
     }
 }
 
@@ -94,14 +103,11 @@ pub fn rng_for(c: &Case) -> ChaChaRng {
 }
 
 fn config(c: &Case, r: &Request) -> BuildConfig {
-    let all = c.anchors == 1;
-    let s_used = !r.s_in.0.is_empty() || !r.s_out.is_empty();
-    let o_used = !r.o_in.0.is_empty() || !r.o_out.is_empty();
-    let i_used = !r.i_in.0.is_empty() || !r.i_out.is_empty();
+    let [s_anch, o_anch, i_anch] = super::world::pools_anchored(c);
     BuildConfig::Standard {
-        sapling_anchor: (all || s_used).then(|| r.s_in.1.unwrap_or_else(sapling::Anchor::empty_tree)),
-        orchard_anchor: (all || o_used).then(|| r.o_in.1.unwrap_or_else(orchard::Anchor::empty_tree)),
-        ironwood_anchor: (all || i_used).then(|| r.i_in.1.unwrap_or_else(orchard::Anchor::empty_tree)),
+        sapling_anchor: s_anch.then(|| r.s_in.1.unwrap_or_else(sapling::Anchor::empty_tree)),
+        orchard_anchor: o_anch.then(|| r.o_in.1.unwrap_or_else(orchard::Anchor::empty_tree)),
+        ironwood_anchor: i_anch.then(|| r.i_in.1.unwrap_or_else(orchard::Anchor::empty_tree)),
         orchard_padding: padding(c.pad[0]),
         ironwood_padding: padding(c.pad[1]),
     }
@@ -120,10 +126,17 @@ fn setup(c: &Case, r: &Request) -> Result<Builder<LocalNetwork, ()>, Stop> {
         b.propose_version::<Infallible>(v).map_err(|e| Stop::Propose(format!("{e:?}")))?;
     }
     for coin in &r.t_in {
-        let addr = TransparentAddress::PublicKeyHash(super::world::hash160(&w.t_pk[coin.key].serialize()));
+        let h: [u8; 20] = if coin.kind == 0 { coin.script[3..23].try_into().unwrap() } else { coin.script[2..22].try_into().unwrap() };
+        let addr = if coin.kind == 0 { TransparentAddress::PublicKeyHash(h) } else { TransparentAddress::ScriptHash(h) };
         let txout = TxOut::new(zat(coin.value), addr.script().into());
-        assert_eq!(txout.script_pubkey().0 .0, coin.script, "harness: P2PKH script bytes");
-        b.add_transparent_p2pkh_input(w.t_pk[coin.key], OutPoint::new(coin.txid, coin.n), txout).map_err(|e| Stop::Add("t_in", format!("{e:?}")))?;
+        assert_eq!(txout.script_pubkey().0 .0, coin.script, "harness: coin script bytes");
+        let op = OutPoint::new(coin.txid, coin.n);
+        if coin.kind == 0 {
+            b.add_transparent_p2pkh_input(w.t_pk[coin.keys[0]], op, txout).map_err(|e| Stop::Add("t_in", format!("{e:?}")))?;
+        } else {
+            let redeem = zcash_script::script::FromChain::parse(&zcash_script::script::Code(coin.redeem.clone())).expect("harness: redeem script parses");
+            b.add_transparent_p2sh_input(redeem, op, txout).map_err(|e| Stop::Add("t_in_p2sh", format!("{e:?}")))?;
+        }
     }
     for s in &r.s_in.0 {
         b.add_sapling_spend::<Infallible>(w.sap[0].fvk.clone(), s.note.clone(), s.path.clone()).map_err(|e| Stop::Add("s_in", format!("{e:?}")))?;
@@ -169,8 +182,12 @@ struct Keys {
 fn keys() -> Keys {
     let w = world();
     let mut tss = TransparentSigningSet::new();
-    for sk in &w.t_sk {
-        tss.add_key(*sk);
+    // every key except the first one of each 2-of-3 script (indices 4 and 7): the builder has to
+    // find the two later keys of the script
+    for (k, sk) in w.t_sk.iter().enumerate() {
+        if k != 4 && k != 7 {
+            tss.add_key(*sk);
+        }
     }
     Keys { tss, extsks: vec![w.sap[0].extsk.clone()], saks: w.orc.iter().map(|p| orchard::keys::SpendAuthorizingKey::from(&p.sk)).collect() }
 }
